@@ -274,6 +274,11 @@ def jobs(tier, seed):
                         chks.append(dict(name="%s %s %s[%d][%d]" % (sbx, mem, etag, N2, M2), fn=check_2d,
                                          kw=dict(mem=mem, etag=etag, N=N2, M=M2, stride=astride if mem == "app" else gs, log=log)))
                     out.append(Job("C17_%s_%s_%s_%d" % (sbx, mem, etag, gi), "\n".join(src) + "\n", chks, flags=["-fno-exceptions"]))
+    # configuration: RLBOX_USE_EXCEPTIONS requested on a TU built without exception support - a refused index still stops
+    csrc = [C.PRELUDE, "using S = B32;"] + [kernel_src(mem, "int", "int", 3, it) for mem in ("app", "sbx") for it in ("int", "ullong")]
+    out.append(Job("C17_B32_cfg_noexc", "\n".join(csrc) + "\n",
+                   [dict(name="B32 %s int[3] idx=%s [RLBOX_USE_EXCEPTIONS, -fno-exceptions]" % (mem, it), fn=check_idx, kw=dict(mem=mem, etag="int", N=3, itag=it, stride=4, log=32))
+                    for mem in ("app", "sbx") for it in ("int", "ullong")], flags=["-fno-exceptions", "-DRLBOX_USE_EXCEPTIONS"]))
     # arrays longer than the range of a narrow index type: a negative index must not alias a valid one after conversion
     lsrc = [C.PRELUDE, "using S = B32;", kernel_src("app", "int", "int", 300, "schar"), kernel_src("sbx", "int", "int", 300, "schar"),
             kernel_src("sbx", "char", "char", 40000, "short")]
